@@ -106,7 +106,13 @@ func ErrorCorrection_EncodeECC200(codewords []byte, symbolInfo *SymbolInfo) ([]b
 			}
 			ecc, _ := createECCBlock(temp, errorSizes[block])
 			pos := 0
-			for e := block; e < errorSizes[block]*blockCount; e += blockCount {
+			eccStart := block
+			if symbolInfo.GetDataCapacity() == 1558 {
+				// 144x144: the error codewords of blocks 1-8 follow those of blocks 9-10
+				// (the order DataBlocks_getDataBlocks de-interleaves)
+				eccStart = (block + 2) % blockCount
+			}
+			for e := eccStart; e < errorSizes[block]*blockCount; e += blockCount {
 				sb[symbolInfo.GetDataCapacity()+e] = ecc[pos]
 				pos++
 			}
